@@ -802,6 +802,28 @@ class Exec:
                 return z3.BoolVal(r) if isinstance(r, bool) else r
             env[ins.res] = self.lift2(g, a, b)
             return
+        if op in ('sdiv', 'srem'):
+            # signed integer division truncates towards zero (integers are unbounded here, like add/sub/mul; a zero divisor is UB in the source
+            # and gets a division obligation like the float divisions)
+            a, b = C(ins.ops[0], ins.ty), C(ins.ops[1], ins.ty)
+
+            def tdiv(x, y):
+                if isinstance(x, int) and isinstance(y, int) and not isinstance(x, bool) and not isinstance(y, bool):
+                    if y == 0:
+                        raise NotEligible('constant division by zero')
+                    q = abs(x) // abs(y)
+                    q = q if (x >= 0) == (y > 0) else -q
+                    return q if op == 'sdiv' else x - y * q
+                x, y = self.z(x), self.z(y)
+                if not (z3.is_int(x) and z3.is_int(y)):
+                    raise NotEligible(op + ' of non-integer values')
+                self.div_obls.append((self.pc_stack[-1], y))
+                ax, ay = z3.If(x >= 0, x, -x), z3.If(y >= 0, y, -y)
+                q = ax / ay
+                q = z3.If((x >= 0) == (y > 0), q, -q)
+                return q if op == 'sdiv' else x - y * q
+            env[ins.res] = self.lift2(tdiv, a, b)
+            return
         if op in ('add', 'sub', 'mul'):
             a, b = C(ins.ops[0], ins.ty), C(ins.ops[1], ins.ty)
             f = {'add': lambda x, y: x + y, 'sub': lambda x, y: x - y, 'mul': lambda x, y: x * y}[op]
